@@ -1021,6 +1021,819 @@ pub open spec fn suback_matches(p: SubackPacket, v: SubackView) -> bool {
             }
 //@end
 
+// =====================================================================================================
+// UNSUBACK decoding (C03, C01: one reason code per byte of the payload): OASIS 3.11
+// =====================================================================================================
+//@const gneiss-mqtt/src/mqtt/utils.rs PACKET_TYPE_UNSUBACK
+//@const gneiss-mqtt/src/mqtt/utils.rs UNSUBACK_FIRST_BYTE
+pub open spec fn unsuback_reason_value(c: UnsubackReasonCode) -> u8 {
+    match c {
+        UnsubackReasonCode::Success => 0u8,
+        UnsubackReasonCode::NoSubscriptionExisted => 17u8,
+        UnsubackReasonCode::UnspecifiedError => 128u8,
+        UnsubackReasonCode::ImplementationSpecificError => 131u8,
+        UnsubackReasonCode::NotAuthorized => 135u8,
+        UnsubackReasonCode::TopicFilterInvalid => 143u8,
+        UnsubackReasonCode::TopicNameInvalid => 144u8,
+        UnsubackReasonCode::PacketIdentifierInUse => 145u8,
+    }
+}
+// OASIS 3.11.3 lists 0x00, 0x11, 0x80, 0x83, 0x87, 0x8F, 0x91; this client also accepts 0x90 (Topic Name Invalid) - noted over-acceptance
+pub open spec fn unsuback_reason_legal(v: u8) -> bool { v == 0 || v == 17 || v == 128 || v == 131 || v == 135 || v == 143 || v == 144 || v == 145 }
+impl UnsubackReasonCode {
+//@fn gneiss-mqtt/src/mqtt/mod.rs try_from props=C03 impl={TryFrom<u8> for UnsubackReasonCode} as=try_from
+    ensures unsuback_reason_legal(value) ==> (r matches Ok(c) && unsuback_reason_value(c) == value), !unsuback_reason_legal(value) ==> r is Err,
+//@end
+}
+pub open spec fn unsuback_ids() -> Set<u8> { set![0x1Fu8, 0x26u8] }
+pub open spec fn unsuback_bag(p: UnsubackPacket) -> PropBag {
+    PropBag { strs: put(Map::<u8, Seq<char>>::empty(), 0x1Fu8, text(p.reason_string)), users: user_seq(p.user_properties), ..empty_bag() }
+}
+
+//@fn gneiss-mqtt/src/mqtt/unsuback.rs decode_unsuback_properties props=C03,C11
+    ensures
+        final(packet).packet_id == old(packet).packet_id, final(packet).reason_codes@ == old(packet).reason_codes@,
+        match parse_props(property_bytes@, unsuback_ids(), unsuback_bag(*old(packet))) {
+            Some(bag) => r is Ok && bag_eq(unsuback_bag(*final(packet)), bag),
+            None => r is Err,
+        },
+//@@loop 0
+        invariant
+            packet.packet_id == old(packet).packet_id, packet.reason_codes@ == old(packet).reason_codes@,
+            parse_props(property_bytes@, unsuback_ids(), unsuback_bag(*old(packet))) == parse_props(mutable_property_bytes@, unsuback_ids(), unsuback_bag(*packet)),
+        decreases mutable_property_bytes@.len(),
+//@@bodyend_of_loop 0
+            proof {
+                let rest = b0.subrange(1, b0.len() as int);
+                let bag0 = unsuback_bag(pk0); let bag1 = unsuback_bag(*packet); let id = b0[0];
+                assert(rest_view == rest);
+                if id == 0x1Fu8 { let x = PropBag { strs: bag0.strs.insert(id, lp_string_text(rest)), ..bag0 }; assert(bag_eq(bag1, x)); assert(bag1 == x); assert(mutable_property_bytes@ =~= rest.subrange(2 + be16(rest), rest.len() as int)); }
+                if id == 0x26u8 {
+                    let rest1 = rest.subrange(2 + be16(rest), rest.len() as int);
+                    let x = PropBag { users: bag0.users.push((lp_string_text(rest), lp_string_text(rest1))), ..bag0 };
+                    assert(bag1.users =~= x.users); assert(bag_eq(bag1, x)); assert(bag1 == x);
+                    assert(mutable_property_bytes@ =~= rest1.subrange(2 + be16(rest1), rest1.len() as int));
+                }
+            }
+//@@at before "let property_key = mutable_property_bytes[0];"
+        let ghost b0 = mutable_property_bytes@;
+        let ghost pk0 = *packet;
+//@@at after "mutable_property_bytes = &mutable_property_bytes[1..];"
+        let ghost rest_view = mutable_property_bytes@;
+//@end
+
+// what a SUBACK says (OASIS 3.9): packet identifier, properties (MQTT 5), one reason code per payload byte
+pub struct UnsubackView { pub packet_id: int, pub bag: PropBag, pub codes: Seq<u8> }
+// everything but the legality of the individual reason codes
+pub open spec fn unsuback_head(first_byte: u8, body: Seq<u8>, v5: bool) -> Option<UnsubackView> {
+    if first_byte != 0xB0 || body.len() < 2 { None } else {
+        let r2 = body.subrange(2, body.len() as int);
+        if !v5 { if body.len() == 2 { Some(UnsubackView { packet_id: be16(body), bag: empty_bag(), codes: Seq::empty() }) } else { None } } else {
+            match vbi_len(r2) {
+                None => None,
+                Some(n) => {
+                    let r3 = r2.subrange(n, r2.len() as int);
+                    let plen = vli_val(r2, n as nat) as int;
+                    if plen > r3.len() { None } else {
+                        match parse_props(r3.subrange(0, plen), unsuback_ids(), empty_bag()) {
+                            Some(bag) => Some(UnsubackView { packet_id: be16(body), bag, codes: r3.subrange(plen, r3.len() as int) }),
+                            None => None,
+                        }
+                    }
+                }
+            }
+        }
+    }
+}
+pub open spec fn unsuback_code_legal(v: u8, v5: bool) -> bool { unsuback_reason_legal(v) }
+pub open spec fn unsuback_spec(first_byte: u8, body: Seq<u8>, v5: bool) -> Option<UnsubackView> {
+    match unsuback_head(first_byte, body, v5) {
+        Some(h) => if forall|i: int| 0 <= i < h.codes.len() ==> unsuback_code_legal(#[trigger] h.codes[i], v5) { Some(h) } else { None },
+        None => None,
+    }
+}
+pub open spec fn unsuback_matches(p: UnsubackPacket, v: UnsubackView) -> bool {
+    &&& p.packet_id as int == v.packet_id && bag_eq(unsuback_bag(p), v.bag)
+    // C01: "holding one reason code per requested entry" starts here - one decoded code per payload byte, in order
+    &&& p.reason_codes@.len() == v.codes.len()
+    &&& forall|i: int| 0 <= i < v.codes.len() ==> unsuback_reason_value(#[trigger] p.reason_codes@[i]) == v.codes[i]
+}
+
+//@fn gneiss-mqtt/src/mqtt/unsuback.rs decode_unsuback_packet5 props=C03,C11,C01 desugar
+//@@rewrite "box_packet.as_mut()" => "&mut *box_packet"
+    ensures
+        match unsuback_spec(first_byte, packet_body@, true) {
+            Some(v) => r matches Ok(b) && (*b matches MqttPacket::Unsuback(p) && unsuback_matches(p, v)),
+            None => r is Err,
+        },
+//@@loop 0 iter=it
+            invariant it.seq().unref() =~= payload_bytes@, reason_code_count == payload_bytes@.len(), verif_taken0 == it.index@,
+                unsuback_head(first_byte, packet_body@, true) matches Some(h) && h.codes == payload_bytes@,
+                packet.reason_codes@.len() == it.index@,
+                forall|j: int| 0 <= j < it.index@ ==> unsuback_reason_legal(#[trigger] payload_bytes@[j]),
+                forall|j: int| 0 <= j < it.index@ ==> unsuback_reason_value(#[trigger] packet.reason_codes@[j]) == payload_bytes@[j],
+                it.index@ == it.seq().len() ==> (packet.reason_codes@.len() == payload_bytes@.len()
+                    && (forall|j: int| 0 <= j < payload_bytes@.len() ==> unsuback_reason_legal(#[trigger] payload_bytes@[j]))
+                    && (forall|j: int| 0 <= j < payload_bytes@.len() ==> unsuback_reason_value(#[trigger] packet.reason_codes@[j]) == payload_bytes@[j])),
+                packet.packet_id == pk1.packet_id, packet.reason_string == pk1.reason_string, packet.user_properties == pk1.user_properties,
+//@@at bodystart
+    proof { assert(11u8 << 4u8 == 0xB0u8) by (bit_vector); assert(PACKET_TYPE_UNSUBACK == 11u8 && UNSUBACK_FIRST_BYTE == 0xB0u8); }
+//@@at before "mutable_body = decode_vli_into_mutable(mutable_body, &mut properties_length)?;"
+        let ghost r2 = mutable_body@;
+        proof {
+            assert(r2 =~= packet_body@.subrange(2, packet_body@.len() as int));
+            lemma_vbi_len_char(r2);
+            assert(unsuback_bag(*packet) == empty_bag()) by { assert(bag_eq(unsuback_bag(*packet), empty_bag())); }
+        }
+//@@at after "mutable_body = decode_vli_into_mutable(mutable_body, &mut properties_length)?;"
+        let ghost r3 = mutable_body@;
+        proof {
+            let n = vbi_len(r2)->Some_0;
+            assert(vbi_len(r2) is Some);
+            assert(r3 =~= r2.subrange(n, r2.len() as int));
+            assert(properties_length == vli_val(r2, n as nat));
+        }
+//@@at after "let payload_bytes = &mutable_body[properties_length..];"
+        proof {
+            assert(properties_bytes@ =~= r3.subrange(0, properties_length as int));
+            assert(payload_bytes@ =~= r3.subrange(properties_length as int, r3.len() as int));
+        }
+//@@at after "packet.reason_codes.reserve(reason_code_count);"
+        let ghost pk1 = *packet;
+        proof {
+            let n = vbi_len(r2)->Some_0;
+            assert(first_byte == 0xB0 && packet_body@.len() >= 2);
+            assert(vbi_len(r2) is Some && r3 == r2.subrange(n, r2.len() as int) && properties_length as int == vli_val(r2, n as nat) as int);
+            assert(parse_props(r3.subrange(0, properties_length as int), unsuback_ids(), empty_bag()) is Some);
+            assert(unsuback_head(first_byte, packet_body@, true) is Some);
+            assert(unsuback_head(first_byte, packet_body@, true)->Some_0.codes == payload_bytes@);
+        }
+//@@at before "return Ok(box_packet);"
+        proof {
+            let n = vbi_len(r2)->Some_0;
+            let codes = r3.subrange(properties_length as int, r3.len() as int);
+            assert(first_byte == 0xB0 && packet_body@.len() >= 2);
+            assert(vbi_len(r2) is Some && r3 == r2.subrange(n, r2.len() as int) && properties_length as int == vli_val(r2, n as nat) as int);
+            assert(codes == payload_bytes@);
+            assert(parse_props(r3.subrange(0, properties_length as int), unsuback_ids(), empty_bag()) is Some);
+            assert forall|i: int| 0 <= i < codes.len() implies unsuback_code_legal(#[trigger] codes[i], true) by { assert(unsuback_reason_legal(payload_bytes@[i])); }
+            let v = unsuback_spec(first_byte, packet_body@, true)->Some_0;
+            assert(unsuback_spec(first_byte, packet_body@, true) is Some);
+            assert(packet.packet_id as int == be16(packet_body@));
+            assert(bag_eq(unsuback_bag(*packet), v.bag));
+            assert(unsuback_matches(*packet, v));
+        }
+//@@at before "packet.reason_codes.push(UnsubackReasonCode::try_from(*payload_byte)?);"
+            let ghost codes_pre = packet.reason_codes@;
+            proof {
+                let i0 = it.index@ as int;
+                assert(it.seq().unref()[i0] == *payload_byte);
+                assert(payload_bytes@[i0] == *payload_byte);
+            }
+//@@at after "packet.reason_codes.push(UnsubackReasonCode::try_from(*payload_byte)?);"
+            proof {
+                let i0 = it.index@ as int;
+                assert(packet.reason_codes@ == codes_pre.push(packet.reason_codes@[i0]));
+                assert(unsuback_reason_value(packet.reason_codes@[i0]) == *payload_byte);
+                assert forall|j: int| 0 <= j < i0 + 1 implies unsuback_reason_value(#[trigger] packet.reason_codes@[j]) == payload_bytes@[j] by {
+                    if j < i0 { assert(packet.reason_codes@[j] == codes_pre[j]); assert(unsuback_reason_value(codes_pre[j]) == payload_bytes@[j]); }
+                }
+            }
+//@end
+
+//@fn gneiss-mqtt/src/mqtt/unsuback.rs decode_unsuback_packet311 props=C03,C11,C01 desugar
+//@@rewrite "box_packet.as_mut()" => "&mut *box_packet"
+    // MQTT 3.1.1 UNSUBACK (OASIS 3.1.1 section 3.11): fixed header 0xB0, exactly the two bytes of the packet identifier
+    ensures
+        match unsuback_spec(first_byte, packet_body@, false) {
+            Some(v) => r matches Ok(b) && (*b matches MqttPacket::Unsuback(p) && unsuback_matches(p, v)),
+            None => r is Err,
+        },
+//@@at bodystart
+    proof { assert(11u8 << 4u8 == 0xB0u8) by (bit_vector); assert(PACKET_TYPE_UNSUBACK == 11u8 && UNSUBACK_FIRST_BYTE == 0xB0u8); }
+//@@at before "return Ok(box_packet);"
+        proof { assert(bag_eq(unsuback_bag(*packet), empty_bag())); assert(packet.reason_codes@.len() == 0); }
+//@end
+
+// =====================================================================================================
+// DISCONNECT decoding (C03): OASIS 3.14 (reason codes table 3.14.2.1, properties 3.14.2.2)
+// =====================================================================================================
+//@const gneiss-mqtt/src/mqtt/utils.rs PACKET_TYPE_DISCONNECT
+pub open spec fn disconnect_reason_value(c: DisconnectReasonCode) -> u8 {
+    match c {
+        DisconnectReasonCode::NormalDisconnection => 0u8,
+        DisconnectReasonCode::DisconnectWithWillMessage => 4u8,
+        DisconnectReasonCode::UnspecifiedError => 128u8,
+        DisconnectReasonCode::MalformedPacket => 129u8,
+        DisconnectReasonCode::ProtocolError => 130u8,
+        DisconnectReasonCode::ImplementationSpecificError => 131u8,
+        DisconnectReasonCode::NotAuthorized => 135u8,
+        DisconnectReasonCode::ServerBusy => 137u8,
+        DisconnectReasonCode::ServerShuttingDown => 139u8,
+        DisconnectReasonCode::KeepAliveTimeout => 141u8,
+        DisconnectReasonCode::SessionTakenOver => 142u8,
+        DisconnectReasonCode::TopicFilterInvalid => 143u8,
+        DisconnectReasonCode::TopicNameInvalid => 144u8,
+        DisconnectReasonCode::ReceiveMaximumExceeded => 147u8,
+        DisconnectReasonCode::TopicAliasInvalid => 148u8,
+        DisconnectReasonCode::PacketTooLarge => 149u8,
+        DisconnectReasonCode::MessageRateTooHigh => 150u8,
+        DisconnectReasonCode::QuotaExceeded => 151u8,
+        DisconnectReasonCode::AdministrativeAction => 152u8,
+        DisconnectReasonCode::PayloadFormatInvalid => 153u8,
+        DisconnectReasonCode::RetainNotSupported => 154u8,
+        DisconnectReasonCode::QosNotSupported => 155u8,
+        DisconnectReasonCode::UseAnotherServer => 156u8,
+        DisconnectReasonCode::ServerMoved => 157u8,
+        DisconnectReasonCode::SharedSubscriptionsNotSupported => 158u8,
+        DisconnectReasonCode::ConnectionRateExceeded => 159u8,
+        DisconnectReasonCode::MaximumConnectTime => 160u8,
+        DisconnectReasonCode::SubscriptionIdentifiersNotSupported => 161u8,
+        DisconnectReasonCode::WildcardSubscriptionsNotSupported => 162u8,
+    }
+}
+pub open spec fn disconnect_reason_legal(v: u8) -> bool {
+    v == 0 || v == 4 || (128 <= v <= 131) || v == 135 || v == 137 || v == 139 || (141 <= v <= 144) || (147 <= v <= 162)
+}
+impl DisconnectReasonCode {
+//@fn gneiss-mqtt/src/mqtt/mod.rs try_from props=C03 impl={TryFrom<u8> for DisconnectReasonCode} as=try_from
+    ensures disconnect_reason_legal(value) ==> (r matches Ok(c) && disconnect_reason_value(c) == value), !disconnect_reason_legal(value) ==> r is Err,
+//@end
+}
+pub open spec fn disconnect_ids() -> Set<u8> { set![0x11u8, 0x1Fu8, 0x26u8, 0x1Cu8] }
+pub open spec fn disconnect_bag(p: DisconnectPacket) -> PropBag {
+    PropBag {
+        u32s: put(Map::<u8, u32>::empty(), 0x11u8, p.session_expiry_interval_seconds),
+        strs: put(put(Map::<u8, Seq<char>>::empty(), 0x1Fu8, text(p.reason_string)), 0x1Cu8, text(p.server_reference)),
+        users: user_seq(p.user_properties), ..empty_bag()
+    }
+}
+
+//@fn gneiss-mqtt/src/mqtt/disconnect.rs decode_disconnect_properties props=C03,C11
+    ensures
+        final(packet).reason_code == old(packet).reason_code,
+        match parse_props(property_bytes@, disconnect_ids(), disconnect_bag(*old(packet))) {
+            Some(bag) => r is Ok && bag_eq(disconnect_bag(*final(packet)), bag),
+            None => r is Err,
+        },
+//@@loop 0
+        invariant
+            packet.reason_code == old(packet).reason_code,
+            parse_props(property_bytes@, disconnect_ids(), disconnect_bag(*old(packet))) == parse_props(mutable_property_bytes@, disconnect_ids(), disconnect_bag(*packet)),
+        decreases mutable_property_bytes@.len(),
+//@@bodyend_of_loop 0
+            proof {
+                let rest = b0.subrange(1, b0.len() as int);
+                let bag0 = disconnect_bag(pk0); let bag1 = disconnect_bag(*packet); let id = b0[0];
+                assert(rest_view == rest);
+                if id == 0x11u8 { let x = PropBag { u32s: bag0.u32s.insert(id, be32(rest) as u32), ..bag0 }; assert(bag_eq(bag1, x)); assert(bag1 == x); assert(mutable_property_bytes@ =~= rest.subrange(4, rest.len() as int)); }
+                if id == 0x1Fu8 || id == 0x1Cu8 { let x = PropBag { strs: bag0.strs.insert(id, lp_string_text(rest)), ..bag0 }; assert(bag_eq(bag1, x)); assert(bag1 == x); assert(mutable_property_bytes@ =~= rest.subrange(2 + be16(rest), rest.len() as int)); }
+                if id == 0x26u8 {
+                    let rest1 = rest.subrange(2 + be16(rest), rest.len() as int);
+                    let x = PropBag { users: bag0.users.push((lp_string_text(rest), lp_string_text(rest1))), ..bag0 };
+                    assert(bag1.users =~= x.users); assert(bag_eq(bag1, x)); assert(bag1 == x);
+                    assert(mutable_property_bytes@ =~= rest1.subrange(2 + be16(rest1), rest1.len() as int));
+                }
+            }
+//@@at before "let property_key = mutable_property_bytes[0];"
+        let ghost b0 = mutable_property_bytes@;
+        let ghost pk0 = *packet;
+//@@at after "mutable_property_bytes = &mutable_property_bytes[1..];"
+        let ghost rest_view = mutable_property_bytes@;
+//@end
+
+// MQTT 5 DISCONNECT (OASIS 3.14): fixed header 0xE0; an empty body means reason 0x00 and no properties; one byte: the reason code; otherwise
+// the reason code, a property length that accounts for exactly the rest, and the property section
+pub open spec fn disconnect5_spec(first_byte: u8, body: Seq<u8>) -> Option<(u8, PropBag)> {
+    if first_byte != 0xE0 { None }
+    else if body.len() == 0 { Some((0u8, empty_bag())) }
+    else if !disconnect_reason_legal(body[0]) { None }
+    else if body.len() == 1 { Some((body[0], empty_bag())) }
+    else {
+        let tail = body.subrange(1, body.len() as int);
+        match vbi_len(tail) {
+            None => None,
+            Some(n) => {
+                let props = tail.subrange(n, tail.len() as int);
+                if vli_val(tail, n as nat) != props.len() { None } else {
+                    match parse_props(props, disconnect_ids(), empty_bag()) { Some(bag) => Some((body[0], bag)), None => None }
+                }
+            }
+        }
+    }
+}
+
+//@fn gneiss-mqtt/src/mqtt/disconnect.rs decode_disconnect_packet5 props=C03,C11 desugar
+//@@rewrite "box_packet.as_mut()" => "&mut *box_packet"
+    ensures
+        match disconnect5_spec(first_byte, packet_body@) {
+            Some((rc, bag)) => r matches Ok(b) && (*b matches MqttPacket::Disconnect(p) && disconnect_reason_value(p.reason_code) == rc && bag_eq(disconnect_bag(p), bag)),
+            None => r is Err,
+        },
+//@@at bodystart
+    proof { assert(14u8 << 4u8 == 0xE0u8) by (bit_vector); assert(PACKET_TYPE_DISCONNECT == 14u8); }
+//@@at before "mutable_body = decode_u8_as_enum(mutable_body, &mut packet.reason_code, DisconnectReasonCode::try_from)?;"
+        proof { assert(bag_eq(disconnect_bag(*packet), empty_bag())); assert(disconnect_reason_value(packet.reason_code) == 0); }
+//@@at before "mutable_body = decode_vli_into_mutable(mutable_body, &mut properties_length)?;"
+        let ghost tail = mutable_body@;
+        proof {
+            assert(tail =~= packet_body@.subrange(1, packet_body@.len() as int));
+            lemma_vbi_len_char(tail);
+            assert(disconnect_bag(*packet) == empty_bag()) by { assert(bag_eq(disconnect_bag(*packet), empty_bag())); }
+        }
+//@@at after "mutable_body = decode_vli_into_mutable(mutable_body, &mut properties_length)?;"
+        proof {
+            let n = vbi_len(tail)->Some_0;
+            assert(vbi_len(tail) is Some);
+            assert(mutable_body@ =~= tail.subrange(n, tail.len() as int));
+            assert(properties_length == vli_val(tail, n as nat));
+        }
+//@end
+
+//@fn gneiss-mqtt/src/mqtt/disconnect.rs decode_disconnect_packet311 props=C03,C11
+    // MQTT 3.1.1 DISCONNECT has no variable header and no payload
+    ensures
+        (first_byte == 0xE0 && packet_body@.len() == 0) ==> (r matches Ok(b) && (*b matches MqttPacket::Disconnect(p) && disconnect_reason_value(p.reason_code) == 0 && bag_eq(disconnect_bag(p), empty_bag()))),
+        !(first_byte == 0xE0 && packet_body@.len() == 0) ==> r is Err,
+//@@at bodystart
+    proof { assert(14u8 << 4u8 == 0xE0u8) by (bit_vector); assert(PACKET_TYPE_DISCONNECT == 14u8); }
+//@end
+
+// =====================================================================================================
+// PUBACK / PUBREC / PUBREL / PUBCOMP decoding (C03, C01): OASIS 3.4 - 3.7. The eight decoders and four property functions are generated
+// by three macro_rules! of decode.rs; the extractor expands the invocations (rule R7b) and the expansions are verified like any function.
+// =====================================================================================================
+pub open spec fn ack_ids() -> Set<u8> { set![0x1Fu8, 0x26u8] }
+// packet identifier; reason code (absent = 0x00 Success); properties (absent when the remaining length is below 4)
+pub open spec fn ack5_spec(first_byte: u8, body: Seq<u8>, fixed: u8, legal: spec_fn(u8) -> bool) -> Option<(int, u8, PropBag)> {
+    if first_byte != fixed || body.len() < 2 { None }
+    else if body.len() == 2 { Some((be16(body), 0u8, empty_bag())) }
+    else if !legal(body[2]) { None }
+    else if body.len() == 3 { Some((be16(body), body[2], empty_bag())) }
+    else {
+        let tail = body.subrange(3, body.len() as int);
+        match vbi_len(tail) {
+            None => None,
+            Some(n) => {
+                let props = tail.subrange(n, tail.len() as int);
+                if vli_val(tail, n as nat) != props.len() { None } else {
+                    match parse_props(props, ack_ids(), empty_bag()) { Some(bag) => Some((be16(body), body[2], bag)), None => None }
+                }
+            }
+        }
+    }
+}
+
+//@const gneiss-mqtt/src/mqtt/utils.rs PACKET_TYPE_PUBACK
+//@const gneiss-mqtt/src/mqtt/utils.rs PUBACK_FIRST_BYTE
+pub open spec fn puback_reason_value(c: PubackReasonCode) -> u8 {
+    match c {
+        PubackReasonCode::Success => 0u8,
+        PubackReasonCode::NoMatchingSubscribers => 16u8,
+        PubackReasonCode::UnspecifiedError => 128u8,
+        PubackReasonCode::ImplementationSpecificError => 131u8,
+        PubackReasonCode::NotAuthorized => 135u8,
+        PubackReasonCode::TopicNameInvalid => 144u8,
+        PubackReasonCode::PacketIdentifierInUse => 145u8,
+        PubackReasonCode::QuotaExceeded => 151u8,
+        PubackReasonCode::PayloadFormatInvalid => 153u8,
+    }
+}
+pub open spec fn puback_reason_legal(v: u8) -> bool { v == 0 || v == 16 || v == 128 || v == 131 || v == 135 || v == 144 || v == 145 || v == 151 || v == 153 }
+impl PubackReasonCode {
+//@fn gneiss-mqtt/src/mqtt/mod.rs try_from props=C03 impl={TryFrom<u8> for PubackReasonCode} as=try_from
+    ensures puback_reason_legal(value) ==> (r matches Ok(c) && puback_reason_value(c) == value), !puback_reason_legal(value) ==> r is Err,
+//@end
+}
+pub open spec fn puback_bag(p: PubackPacket) -> PropBag {
+    PropBag { strs: put(Map::<u8, Seq<char>>::empty(), 0x1Fu8, text(p.reason_string)), users: user_seq(p.user_properties), ..empty_bag() }
+}
+
+//@fn gneiss-mqtt/src/mqtt/puback.rs decode_puback_properties props=C03,C11 via=gneiss-mqtt/src/decode.rs:define_ack_packet_decode_properties_function
+    ensures
+        final(packet).packet_id == old(packet).packet_id, final(packet).reason_code == old(packet).reason_code,
+        match parse_props(property_bytes@, ack_ids(), puback_bag(*old(packet))) {
+            Some(bag) => r is Ok && bag_eq(puback_bag(*final(packet)), bag),
+            None => r is Err,
+        },
+//@@loop 0
+        invariant
+            packet.packet_id == old(packet).packet_id, packet.reason_code == old(packet).reason_code,
+            parse_props(property_bytes@, ack_ids(), puback_bag(*old(packet))) == parse_props(mutable_property_bytes@, ack_ids(), puback_bag(*packet)),
+        decreases mutable_property_bytes@.len(),
+//@@bodyend_of_loop 0
+            proof {
+                let rest = b0.subrange(1, b0.len() as int);
+                let bag0 = puback_bag(pk0); let bag1 = puback_bag(*packet); let id = b0[0];
+                assert(rest_view == rest);
+                if id == 0x1Fu8 { let x = PropBag { strs: bag0.strs.insert(id, lp_string_text(rest)), ..bag0 }; assert(bag_eq(bag1, x)); assert(bag1 == x); assert(mutable_property_bytes@ =~= rest.subrange(2 + be16(rest), rest.len() as int)); }
+                if id == 0x26u8 {
+                    let rest1 = rest.subrange(2 + be16(rest), rest.len() as int);
+                    let x = PropBag { users: bag0.users.push((lp_string_text(rest), lp_string_text(rest1))), ..bag0 };
+                    assert(bag1.users =~= x.users); assert(bag_eq(bag1, x)); assert(bag1 == x);
+                    assert(mutable_property_bytes@ =~= rest1.subrange(2 + be16(rest1), rest1.len() as int));
+                }
+            }
+//@@at before "let property_key = mutable_property_bytes[0];"
+        let ghost b0 = mutable_property_bytes@;
+        let ghost pk0 = *packet;
+//@@at after "mutable_property_bytes = &mutable_property_bytes[1..];"
+        let ghost rest_view = mutable_property_bytes@;
+//@end
+
+//@fn gneiss-mqtt/src/mqtt/puback.rs decode_puback_packet5 props=C03,C11,C01 via=gneiss-mqtt/src/decode.rs:define_ack_packet_decode_function5 desugar
+//@@rewrite "box_packet.as_mut()" => "&mut *box_packet"
+    ensures
+        match ack5_spec(first_byte, packet_body@, 0x40u8, |v: u8| puback_reason_legal(v)) {
+            Some((pid, rc, bag)) => r matches Ok(b) && (*b matches MqttPacket::Puback(p) && p.packet_id as int == pid && puback_reason_value(p.reason_code) == rc && bag_eq(puback_bag(p), bag)),
+            None => r is Err,
+        },
+//@@at bodystart
+    proof { assert((4u8 << 4u8) == 0x40u8) by (bit_vector); assert((0x40u8 | 2u8) == (0x40u8 + 2u8)) by (bit_vector); assert(PACKET_TYPE_PUBACK == 4u8 && PUBACK_FIRST_BYTE == 0x40u8); }
+//@@at before "mutable_body = decode_u8_as_enum(mutable_body, &mut packet.reason_code, PubackReasonCode::try_from)?;"
+        proof { assert(bag_eq(puback_bag(*packet), empty_bag())); assert(puback_reason_value(packet.reason_code) == 0); assert(mutable_body@ =~= packet_body@.subrange(2, packet_body@.len() as int)); }
+//@@at before "mutable_body = decode_vli_into_mutable(mutable_body, &mut properties_length)?;"
+        let ghost tail = mutable_body@;
+        proof {
+            assert(tail =~= packet_body@.subrange(3, packet_body@.len() as int));
+            lemma_vbi_len_char(tail);
+            assert(puback_bag(*packet) == empty_bag()) by { assert(bag_eq(puback_bag(*packet), empty_bag())); }
+        }
+//@@at after "mutable_body = decode_vli_into_mutable(mutable_body, &mut properties_length)?;"
+        proof {
+            let n = vbi_len(tail)->Some_0;
+            assert(vbi_len(tail) is Some);
+            assert(mutable_body@ =~= tail.subrange(n, tail.len() as int));
+            assert(properties_length == vli_val(tail, n as nat));
+        }
+//@end
+
+//@fn gneiss-mqtt/src/mqtt/puback.rs decode_puback_packet311 props=C03,C11,C01 via=gneiss-mqtt/src/decode.rs:define_ack_packet_decode_function311
+//@@rewrite "box_packet.as_mut()" => "&mut *box_packet"
+    // MQTT 3.1.1: exactly the two bytes of the packet identifier
+    ensures
+        (first_byte == 0x40u8 && packet_body@.len() == 2) ==> (r matches Ok(b) && (*b matches MqttPacket::Puback(p) && p.packet_id as int == be16(packet_body@) && puback_reason_value(p.reason_code) == 0 && bag_eq(puback_bag(p), empty_bag()))),
+        !(first_byte == 0x40u8 && packet_body@.len() == 2) ==> r is Err,
+//@@at bodystart
+    proof { assert((4u8 << 4u8) == 0x40u8) by (bit_vector); assert((0x40u8 | 2u8) == (0x40u8 + 2u8)) by (bit_vector); assert(PACKET_TYPE_PUBACK == 4u8 && PUBACK_FIRST_BYTE == 0x40u8); }
+//@end
+
+//@const gneiss-mqtt/src/mqtt/utils.rs PACKET_TYPE_PUBREC
+//@const gneiss-mqtt/src/mqtt/utils.rs PUBREC_FIRST_BYTE
+pub open spec fn pubrec_reason_value(c: PubrecReasonCode) -> u8 {
+    match c {
+        PubrecReasonCode::Success => 0u8,
+        PubrecReasonCode::NoMatchingSubscribers => 16u8,
+        PubrecReasonCode::UnspecifiedError => 128u8,
+        PubrecReasonCode::ImplementationSpecificError => 131u8,
+        PubrecReasonCode::NotAuthorized => 135u8,
+        PubrecReasonCode::TopicNameInvalid => 144u8,
+        PubrecReasonCode::PacketIdentifierInUse => 145u8,
+        PubrecReasonCode::QuotaExceeded => 151u8,
+        PubrecReasonCode::PayloadFormatInvalid => 153u8,
+    }
+}
+pub open spec fn pubrec_reason_legal(v: u8) -> bool { v == 0 || v == 16 || v == 128 || v == 131 || v == 135 || v == 144 || v == 145 || v == 151 || v == 153 }
+impl PubrecReasonCode {
+//@fn gneiss-mqtt/src/mqtt/mod.rs try_from props=C03 impl={TryFrom<u8> for PubrecReasonCode} as=try_from
+    ensures pubrec_reason_legal(value) ==> (r matches Ok(c) && pubrec_reason_value(c) == value), !pubrec_reason_legal(value) ==> r is Err,
+//@end
+}
+pub open spec fn pubrec_bag(p: PubrecPacket) -> PropBag {
+    PropBag { strs: put(Map::<u8, Seq<char>>::empty(), 0x1Fu8, text(p.reason_string)), users: user_seq(p.user_properties), ..empty_bag() }
+}
+
+//@fn gneiss-mqtt/src/mqtt/pubrec.rs decode_pubrec_properties props=C03,C11 via=gneiss-mqtt/src/decode.rs:define_ack_packet_decode_properties_function
+    ensures
+        final(packet).packet_id == old(packet).packet_id, final(packet).reason_code == old(packet).reason_code,
+        match parse_props(property_bytes@, ack_ids(), pubrec_bag(*old(packet))) {
+            Some(bag) => r is Ok && bag_eq(pubrec_bag(*final(packet)), bag),
+            None => r is Err,
+        },
+//@@loop 0
+        invariant
+            packet.packet_id == old(packet).packet_id, packet.reason_code == old(packet).reason_code,
+            parse_props(property_bytes@, ack_ids(), pubrec_bag(*old(packet))) == parse_props(mutable_property_bytes@, ack_ids(), pubrec_bag(*packet)),
+        decreases mutable_property_bytes@.len(),
+//@@bodyend_of_loop 0
+            proof {
+                let rest = b0.subrange(1, b0.len() as int);
+                let bag0 = pubrec_bag(pk0); let bag1 = pubrec_bag(*packet); let id = b0[0];
+                assert(rest_view == rest);
+                if id == 0x1Fu8 { let x = PropBag { strs: bag0.strs.insert(id, lp_string_text(rest)), ..bag0 }; assert(bag_eq(bag1, x)); assert(bag1 == x); assert(mutable_property_bytes@ =~= rest.subrange(2 + be16(rest), rest.len() as int)); }
+                if id == 0x26u8 {
+                    let rest1 = rest.subrange(2 + be16(rest), rest.len() as int);
+                    let x = PropBag { users: bag0.users.push((lp_string_text(rest), lp_string_text(rest1))), ..bag0 };
+                    assert(bag1.users =~= x.users); assert(bag_eq(bag1, x)); assert(bag1 == x);
+                    assert(mutable_property_bytes@ =~= rest1.subrange(2 + be16(rest1), rest1.len() as int));
+                }
+            }
+//@@at before "let property_key = mutable_property_bytes[0];"
+        let ghost b0 = mutable_property_bytes@;
+        let ghost pk0 = *packet;
+//@@at after "mutable_property_bytes = &mutable_property_bytes[1..];"
+        let ghost rest_view = mutable_property_bytes@;
+//@end
+
+//@fn gneiss-mqtt/src/mqtt/pubrec.rs decode_pubrec_packet5 props=C03,C11,C01 via=gneiss-mqtt/src/decode.rs:define_ack_packet_decode_function5 desugar
+//@@rewrite "box_packet.as_mut()" => "&mut *box_packet"
+    ensures
+        match ack5_spec(first_byte, packet_body@, 0x50u8, |v: u8| pubrec_reason_legal(v)) {
+            Some((pid, rc, bag)) => r matches Ok(b) && (*b matches MqttPacket::Pubrec(p) && p.packet_id as int == pid && pubrec_reason_value(p.reason_code) == rc && bag_eq(pubrec_bag(p), bag)),
+            None => r is Err,
+        },
+//@@at bodystart
+    proof { assert((5u8 << 4u8) == 0x50u8) by (bit_vector); assert((0x50u8 | 2u8) == (0x50u8 + 2u8)) by (bit_vector); assert(PACKET_TYPE_PUBREC == 5u8 && PUBREC_FIRST_BYTE == 0x50u8); }
+//@@at before "mutable_body = decode_u8_as_enum(mutable_body, &mut packet.reason_code, PubrecReasonCode::try_from)?;"
+        proof { assert(bag_eq(pubrec_bag(*packet), empty_bag())); assert(pubrec_reason_value(packet.reason_code) == 0); assert(mutable_body@ =~= packet_body@.subrange(2, packet_body@.len() as int)); }
+//@@at before "mutable_body = decode_vli_into_mutable(mutable_body, &mut properties_length)?;"
+        let ghost tail = mutable_body@;
+        proof {
+            assert(tail =~= packet_body@.subrange(3, packet_body@.len() as int));
+            lemma_vbi_len_char(tail);
+            assert(pubrec_bag(*packet) == empty_bag()) by { assert(bag_eq(pubrec_bag(*packet), empty_bag())); }
+        }
+//@@at after "mutable_body = decode_vli_into_mutable(mutable_body, &mut properties_length)?;"
+        proof {
+            let n = vbi_len(tail)->Some_0;
+            assert(vbi_len(tail) is Some);
+            assert(mutable_body@ =~= tail.subrange(n, tail.len() as int));
+            assert(properties_length == vli_val(tail, n as nat));
+        }
+//@end
+
+//@fn gneiss-mqtt/src/mqtt/pubrec.rs decode_pubrec_packet311 props=C03,C11,C01 via=gneiss-mqtt/src/decode.rs:define_ack_packet_decode_function311
+//@@rewrite "box_packet.as_mut()" => "&mut *box_packet"
+    // MQTT 3.1.1: exactly the two bytes of the packet identifier
+    ensures
+        (first_byte == 0x50u8 && packet_body@.len() == 2) ==> (r matches Ok(b) && (*b matches MqttPacket::Pubrec(p) && p.packet_id as int == be16(packet_body@) && pubrec_reason_value(p.reason_code) == 0 && bag_eq(pubrec_bag(p), empty_bag()))),
+        !(first_byte == 0x50u8 && packet_body@.len() == 2) ==> r is Err,
+//@@at bodystart
+    proof { assert((5u8 << 4u8) == 0x50u8) by (bit_vector); assert((0x50u8 | 2u8) == (0x50u8 + 2u8)) by (bit_vector); assert(PACKET_TYPE_PUBREC == 5u8 && PUBREC_FIRST_BYTE == 0x50u8); }
+//@end
+
+//@const gneiss-mqtt/src/mqtt/utils.rs PACKET_TYPE_PUBREL
+//@const gneiss-mqtt/src/mqtt/utils.rs PUBREL_FIRST_BYTE
+pub open spec fn pubrel_reason_value(c: PubrelReasonCode) -> u8 {
+    match c {
+        PubrelReasonCode::Success => 0u8,
+        PubrelReasonCode::PacketIdentifierNotFound => 146u8,
+    }
+}
+pub open spec fn pubrel_reason_legal(v: u8) -> bool { v == 0 || v == 146 }
+impl PubrelReasonCode {
+//@fn gneiss-mqtt/src/mqtt/mod.rs try_from props=C03 impl={TryFrom<u8> for PubrelReasonCode} as=try_from
+    ensures pubrel_reason_legal(value) ==> (r matches Ok(c) && pubrel_reason_value(c) == value), !pubrel_reason_legal(value) ==> r is Err,
+//@end
+}
+pub open spec fn pubrel_bag(p: PubrelPacket) -> PropBag {
+    PropBag { strs: put(Map::<u8, Seq<char>>::empty(), 0x1Fu8, text(p.reason_string)), users: user_seq(p.user_properties), ..empty_bag() }
+}
+
+//@fn gneiss-mqtt/src/mqtt/pubrel.rs decode_pubrel_properties props=C03,C11 via=gneiss-mqtt/src/decode.rs:define_ack_packet_decode_properties_function
+    ensures
+        final(packet).packet_id == old(packet).packet_id, final(packet).reason_code == old(packet).reason_code,
+        match parse_props(property_bytes@, ack_ids(), pubrel_bag(*old(packet))) {
+            Some(bag) => r is Ok && bag_eq(pubrel_bag(*final(packet)), bag),
+            None => r is Err,
+        },
+//@@loop 0
+        invariant
+            packet.packet_id == old(packet).packet_id, packet.reason_code == old(packet).reason_code,
+            parse_props(property_bytes@, ack_ids(), pubrel_bag(*old(packet))) == parse_props(mutable_property_bytes@, ack_ids(), pubrel_bag(*packet)),
+        decreases mutable_property_bytes@.len(),
+//@@bodyend_of_loop 0
+            proof {
+                let rest = b0.subrange(1, b0.len() as int);
+                let bag0 = pubrel_bag(pk0); let bag1 = pubrel_bag(*packet); let id = b0[0];
+                assert(rest_view == rest);
+                if id == 0x1Fu8 { let x = PropBag { strs: bag0.strs.insert(id, lp_string_text(rest)), ..bag0 }; assert(bag_eq(bag1, x)); assert(bag1 == x); assert(mutable_property_bytes@ =~= rest.subrange(2 + be16(rest), rest.len() as int)); }
+                if id == 0x26u8 {
+                    let rest1 = rest.subrange(2 + be16(rest), rest.len() as int);
+                    let x = PropBag { users: bag0.users.push((lp_string_text(rest), lp_string_text(rest1))), ..bag0 };
+                    assert(bag1.users =~= x.users); assert(bag_eq(bag1, x)); assert(bag1 == x);
+                    assert(mutable_property_bytes@ =~= rest1.subrange(2 + be16(rest1), rest1.len() as int));
+                }
+            }
+//@@at before "let property_key = mutable_property_bytes[0];"
+        let ghost b0 = mutable_property_bytes@;
+        let ghost pk0 = *packet;
+//@@at after "mutable_property_bytes = &mutable_property_bytes[1..];"
+        let ghost rest_view = mutable_property_bytes@;
+//@end
+
+//@fn gneiss-mqtt/src/mqtt/pubrel.rs decode_pubrel_packet5 props=C03,C11,C01 via=gneiss-mqtt/src/decode.rs:define_ack_packet_decode_function5 desugar
+//@@rewrite "box_packet.as_mut()" => "&mut *box_packet"
+    ensures
+        match ack5_spec(first_byte, packet_body@, 0x62u8, |v: u8| pubrel_reason_legal(v)) {
+            Some((pid, rc, bag)) => r matches Ok(b) && (*b matches MqttPacket::Pubrel(p) && p.packet_id as int == pid && pubrel_reason_value(p.reason_code) == rc && bag_eq(pubrel_bag(p), bag)),
+            None => r is Err,
+        },
+//@@at bodystart
+    proof { assert((6u8 << 4u8) == 0x60u8) by (bit_vector); assert((0x60u8 | 2u8) == (0x60u8 + 2u8)) by (bit_vector); assert(PACKET_TYPE_PUBREL == 6u8 && PUBREL_FIRST_BYTE == 0x62u8); }
+//@@at before "mutable_body = decode_u8_as_enum(mutable_body, &mut packet.reason_code, PubrelReasonCode::try_from)?;"
+        proof { assert(bag_eq(pubrel_bag(*packet), empty_bag())); assert(pubrel_reason_value(packet.reason_code) == 0); assert(mutable_body@ =~= packet_body@.subrange(2, packet_body@.len() as int)); }
+//@@at before "mutable_body = decode_vli_into_mutable(mutable_body, &mut properties_length)?;"
+        let ghost tail = mutable_body@;
+        proof {
+            assert(tail =~= packet_body@.subrange(3, packet_body@.len() as int));
+            lemma_vbi_len_char(tail);
+            assert(pubrel_bag(*packet) == empty_bag()) by { assert(bag_eq(pubrel_bag(*packet), empty_bag())); }
+        }
+//@@at after "mutable_body = decode_vli_into_mutable(mutable_body, &mut properties_length)?;"
+        proof {
+            let n = vbi_len(tail)->Some_0;
+            assert(vbi_len(tail) is Some);
+            assert(mutable_body@ =~= tail.subrange(n, tail.len() as int));
+            assert(properties_length == vli_val(tail, n as nat));
+        }
+//@end
+
+//@fn gneiss-mqtt/src/mqtt/pubrel.rs decode_pubrel_packet311 props=C03,C11,C01 via=gneiss-mqtt/src/decode.rs:define_ack_packet_decode_function311
+//@@rewrite "box_packet.as_mut()" => "&mut *box_packet"
+    // MQTT 3.1.1: exactly the two bytes of the packet identifier
+    ensures
+        (first_byte == 0x62u8 && packet_body@.len() == 2) ==> (r matches Ok(b) && (*b matches MqttPacket::Pubrel(p) && p.packet_id as int == be16(packet_body@) && pubrel_reason_value(p.reason_code) == 0 && bag_eq(pubrel_bag(p), empty_bag()))),
+        !(first_byte == 0x62u8 && packet_body@.len() == 2) ==> r is Err,
+//@@at bodystart
+    proof { assert((6u8 << 4u8) == 0x60u8) by (bit_vector); assert((0x60u8 | 2u8) == (0x60u8 + 2u8)) by (bit_vector); assert(PACKET_TYPE_PUBREL == 6u8 && PUBREL_FIRST_BYTE == 0x62u8); }
+//@end
+
+//@const gneiss-mqtt/src/mqtt/utils.rs PACKET_TYPE_PUBCOMP
+//@const gneiss-mqtt/src/mqtt/utils.rs PUBCOMP_FIRST_BYTE
+pub open spec fn pubcomp_reason_value(c: PubcompReasonCode) -> u8 {
+    match c {
+        PubcompReasonCode::Success => 0u8,
+        PubcompReasonCode::PacketIdentifierNotFound => 146u8,
+    }
+}
+pub open spec fn pubcomp_reason_legal(v: u8) -> bool { v == 0 || v == 146 }
+impl PubcompReasonCode {
+//@fn gneiss-mqtt/src/mqtt/mod.rs try_from props=C03 impl={TryFrom<u8> for PubcompReasonCode} as=try_from
+    ensures pubcomp_reason_legal(value) ==> (r matches Ok(c) && pubcomp_reason_value(c) == value), !pubcomp_reason_legal(value) ==> r is Err,
+//@end
+}
+pub open spec fn pubcomp_bag(p: PubcompPacket) -> PropBag {
+    PropBag { strs: put(Map::<u8, Seq<char>>::empty(), 0x1Fu8, text(p.reason_string)), users: user_seq(p.user_properties), ..empty_bag() }
+}
+
+//@fn gneiss-mqtt/src/mqtt/pubcomp.rs decode_pubcomp_properties props=C03,C11 via=gneiss-mqtt/src/decode.rs:define_ack_packet_decode_properties_function
+    ensures
+        final(packet).packet_id == old(packet).packet_id, final(packet).reason_code == old(packet).reason_code,
+        match parse_props(property_bytes@, ack_ids(), pubcomp_bag(*old(packet))) {
+            Some(bag) => r is Ok && bag_eq(pubcomp_bag(*final(packet)), bag),
+            None => r is Err,
+        },
+//@@loop 0
+        invariant
+            packet.packet_id == old(packet).packet_id, packet.reason_code == old(packet).reason_code,
+            parse_props(property_bytes@, ack_ids(), pubcomp_bag(*old(packet))) == parse_props(mutable_property_bytes@, ack_ids(), pubcomp_bag(*packet)),
+        decreases mutable_property_bytes@.len(),
+//@@bodyend_of_loop 0
+            proof {
+                let rest = b0.subrange(1, b0.len() as int);
+                let bag0 = pubcomp_bag(pk0); let bag1 = pubcomp_bag(*packet); let id = b0[0];
+                assert(rest_view == rest);
+                if id == 0x1Fu8 { let x = PropBag { strs: bag0.strs.insert(id, lp_string_text(rest)), ..bag0 }; assert(bag_eq(bag1, x)); assert(bag1 == x); assert(mutable_property_bytes@ =~= rest.subrange(2 + be16(rest), rest.len() as int)); }
+                if id == 0x26u8 {
+                    let rest1 = rest.subrange(2 + be16(rest), rest.len() as int);
+                    let x = PropBag { users: bag0.users.push((lp_string_text(rest), lp_string_text(rest1))), ..bag0 };
+                    assert(bag1.users =~= x.users); assert(bag_eq(bag1, x)); assert(bag1 == x);
+                    assert(mutable_property_bytes@ =~= rest1.subrange(2 + be16(rest1), rest1.len() as int));
+                }
+            }
+//@@at before "let property_key = mutable_property_bytes[0];"
+        let ghost b0 = mutable_property_bytes@;
+        let ghost pk0 = *packet;
+//@@at after "mutable_property_bytes = &mutable_property_bytes[1..];"
+        let ghost rest_view = mutable_property_bytes@;
+//@end
+
+//@fn gneiss-mqtt/src/mqtt/pubcomp.rs decode_pubcomp_packet5 props=C03,C11,C01 via=gneiss-mqtt/src/decode.rs:define_ack_packet_decode_function5 desugar
+//@@rewrite "box_packet.as_mut()" => "&mut *box_packet"
+    ensures
+        match ack5_spec(first_byte, packet_body@, 0x70u8, |v: u8| pubcomp_reason_legal(v)) {
+            Some((pid, rc, bag)) => r matches Ok(b) && (*b matches MqttPacket::Pubcomp(p) && p.packet_id as int == pid && pubcomp_reason_value(p.reason_code) == rc && bag_eq(pubcomp_bag(p), bag)),
+            None => r is Err,
+        },
+//@@at bodystart
+    proof { assert((7u8 << 4u8) == 0x70u8) by (bit_vector); assert((0x70u8 | 2u8) == (0x70u8 + 2u8)) by (bit_vector); assert(PACKET_TYPE_PUBCOMP == 7u8 && PUBCOMP_FIRST_BYTE == 0x70u8); }
+//@@at before "mutable_body = decode_u8_as_enum(mutable_body, &mut packet.reason_code, PubcompReasonCode::try_from)?;"
+        proof { assert(bag_eq(pubcomp_bag(*packet), empty_bag())); assert(pubcomp_reason_value(packet.reason_code) == 0); assert(mutable_body@ =~= packet_body@.subrange(2, packet_body@.len() as int)); }
+//@@at before "mutable_body = decode_vli_into_mutable(mutable_body, &mut properties_length)?;"
+        let ghost tail = mutable_body@;
+        proof {
+            assert(tail =~= packet_body@.subrange(3, packet_body@.len() as int));
+            lemma_vbi_len_char(tail);
+            assert(pubcomp_bag(*packet) == empty_bag()) by { assert(bag_eq(pubcomp_bag(*packet), empty_bag())); }
+        }
+//@@at after "mutable_body = decode_vli_into_mutable(mutable_body, &mut properties_length)?;"
+        proof {
+            let n = vbi_len(tail)->Some_0;
+            assert(vbi_len(tail) is Some);
+            assert(mutable_body@ =~= tail.subrange(n, tail.len() as int));
+            assert(properties_length == vli_val(tail, n as nat));
+        }
+//@end
+
+//@fn gneiss-mqtt/src/mqtt/pubcomp.rs decode_pubcomp_packet311 props=C03,C11,C01 via=gneiss-mqtt/src/decode.rs:define_ack_packet_decode_function311
+//@@rewrite "box_packet.as_mut()" => "&mut *box_packet"
+    // MQTT 3.1.1: exactly the two bytes of the packet identifier
+    ensures
+        (first_byte == 0x70u8 && packet_body@.len() == 2) ==> (r matches Ok(b) && (*b matches MqttPacket::Pubcomp(p) && p.packet_id as int == be16(packet_body@) && pubcomp_reason_value(p.reason_code) == 0 && bag_eq(pubcomp_bag(p), empty_bag()))),
+        !(first_byte == 0x70u8 && packet_body@.len() == 2) ==> r is Err,
+//@@at bodystart
+    proof { assert((7u8 << 4u8) == 0x70u8) by (bit_vector); assert((0x70u8 | 2u8) == (0x70u8 + 2u8)) by (bit_vector); assert(PACKET_TYPE_PUBCOMP == 7u8 && PUBCOMP_FIRST_BYTE == 0x70u8); }
+//@end
+
+// =====================================================================================================
+// PINGRESP and the dispatch on the packet type (C03): the high nibble of the first byte selects the decoder (OASIS 2.1.2)
+// =====================================================================================================
+//@const gneiss-mqtt/src/mqtt/utils.rs PACKET_TYPE_CONNECT
+//@const gneiss-mqtt/src/mqtt/utils.rs PACKET_TYPE_PUBLISH
+//@const gneiss-mqtt/src/mqtt/utils.rs PACKET_TYPE_SUBSCRIBE
+//@const gneiss-mqtt/src/mqtt/utils.rs PACKET_TYPE_UNSUBSCRIBE
+//@const gneiss-mqtt/src/mqtt/utils.rs PACKET_TYPE_PINGREQ
+//@const gneiss-mqtt/src/mqtt/utils.rs PACKET_TYPE_PINGRESP
+//@const gneiss-mqtt/src/mqtt/utils.rs PACKET_TYPE_AUTH
+//@const gneiss-mqtt/src/mqtt/pingresp.rs PINGRESP_FIRST_BYTE
+//@fn gneiss-mqtt/src/mqtt/pingresp.rs decode_pingresp_packet props=C03,C11
+    ensures (first_byte == 0xD0u8 && packet_body@.len() == 0) ==> (r matches Ok(b) && *b is Pingresp), !(first_byte == 0xD0u8 && packet_body@.len() == 0) ==> r is Err,
+//@@at bodystart
+    proof { assert(13u8 << 4u8 == 0xD0u8) by (bit_vector); assert(PACKET_TYPE_PINGRESP == 13u8 && PINGRESP_FIRST_BYTE == 0xD0u8); }
+//@end
+// decoders of packets only a server receives (each exists twice in the crate: a cfg(test) version and a cfg(not(test)) version that returns
+// an "unimplemented" error): signature-only stubs, no contract, nothing assumed about them
+#[verifier::external_body] pub fn decode_connect_packet5(first_byte: u8, packet_body: &[u8]) -> GneissResult<Box<MqttPacket>> { unimplemented!() }
+#[verifier::external_body] pub fn decode_connect_packet311(first_byte: u8, packet_body: &[u8]) -> GneissResult<Box<MqttPacket>> { unimplemented!() }
+#[verifier::external_body] pub fn decode_subscribe_packet5(first_byte: u8, packet_body: &[u8]) -> GneissResult<Box<MqttPacket>> { unimplemented!() }
+#[verifier::external_body] pub fn decode_subscribe_packet311(first_byte: u8, packet_body: &[u8]) -> GneissResult<Box<MqttPacket>> { unimplemented!() }
+#[verifier::external_body] pub fn decode_unsubscribe_packet5(first_byte: u8, packet_body: &[u8]) -> GneissResult<Box<MqttPacket>> { unimplemented!() }
+#[verifier::external_body] pub fn decode_unsubscribe_packet311(first_byte: u8, packet_body: &[u8]) -> GneissResult<Box<MqttPacket>> { unimplemented!() }
+#[verifier::external_body] pub fn decode_pingreq_packet(first_byte: u8, packet_body: &[u8]) -> GneissResult<Box<MqttPacket>> { unimplemented!() }
+#[verifier::external_body] pub fn decode_auth_packet5(first_byte: u8, packet_body: &[u8]) -> GneissResult<Box<MqttPacket>> { unimplemented!() }
+
+//@fn gneiss-mqtt/src/decode.rs decode_packet5 props=C03,C11
+    // each server-to-client packet type is decoded by the decoder of THAT type (the per-type specifications above)
+    ensures
+        (first_byte >> 4u8) == 2 ==> (match connack5_spec(first_byte, packet_body@) {
+            Some((sp, rc, bag)) => r matches Ok(b) && (*b matches MqttPacket::Connack(p) && p.session_present == sp && connect_reason_value(p.reason_code) == rc && bag_eq(connack_bag(p), bag)),
+            None => r is Err }),
+        (first_byte >> 4u8) == 3 ==> (match publish_spec(first_byte, packet_body@, true) { Some(v) => r matches Ok(b) && (*b matches MqttPacket::Publish(p) && publish_matches(p, v)), None => r is Err }),
+        (first_byte >> 4u8) == 4 ==> (match ack5_spec(first_byte, packet_body@, 0x40u8, |v: u8| puback_reason_legal(v)) {
+            Some((pid, rc, bag)) => r matches Ok(b) && (*b matches MqttPacket::Puback(p) && p.packet_id as int == pid && puback_reason_value(p.reason_code) == rc && bag_eq(puback_bag(p), bag)),
+            None => r is Err }),
+        (first_byte >> 4u8) == 5 ==> (match ack5_spec(first_byte, packet_body@, 0x50u8, |v: u8| pubrec_reason_legal(v)) {
+            Some((pid, rc, bag)) => r matches Ok(b) && (*b matches MqttPacket::Pubrec(p) && p.packet_id as int == pid && pubrec_reason_value(p.reason_code) == rc && bag_eq(pubrec_bag(p), bag)),
+            None => r is Err }),
+        (first_byte >> 4u8) == 6 ==> (match ack5_spec(first_byte, packet_body@, 0x62u8, |v: u8| pubrel_reason_legal(v)) {
+            Some((pid, rc, bag)) => r matches Ok(b) && (*b matches MqttPacket::Pubrel(p) && p.packet_id as int == pid && pubrel_reason_value(p.reason_code) == rc && bag_eq(pubrel_bag(p), bag)),
+            None => r is Err }),
+        (first_byte >> 4u8) == 7 ==> (match ack5_spec(first_byte, packet_body@, 0x70u8, |v: u8| pubcomp_reason_legal(v)) {
+            Some((pid, rc, bag)) => r matches Ok(b) && (*b matches MqttPacket::Pubcomp(p) && p.packet_id as int == pid && pubcomp_reason_value(p.reason_code) == rc && bag_eq(pubcomp_bag(p), bag)),
+            None => r is Err }),
+        (first_byte >> 4u8) == 9 ==> (match suback_spec(first_byte, packet_body@, true) { Some(v) => r matches Ok(b) && (*b matches MqttPacket::Suback(p) && suback_matches(p, v)), None => r is Err }),
+        (first_byte >> 4u8) == 11 ==> (match unsuback_spec(first_byte, packet_body@, true) { Some(v) => r matches Ok(b) && (*b matches MqttPacket::Unsuback(p) && unsuback_matches(p, v)), None => r is Err }),
+        (first_byte >> 4u8) == 13 ==> ((first_byte == 0xD0u8 && packet_body@.len() == 0) ==> (r matches Ok(b) && *b is Pingresp)) && (!(first_byte == 0xD0u8 && packet_body@.len() == 0) ==> r is Err),
+        (first_byte >> 4u8) == 14 ==> (match disconnect5_spec(first_byte, packet_body@) {
+            Some((rc, bag)) => r matches Ok(b) && (*b matches MqttPacket::Disconnect(p) && disconnect_reason_value(p.reason_code) == rc && bag_eq(disconnect_bag(p), bag)),
+            None => r is Err }),
+        (first_byte >> 4u8) == 0 ==> r is Err,
+//@@at bodystart
+    proof { assert((first_byte >> 4u8) <= 15u8) by (bit_vector); }
+//@end
+
+//@fn gneiss-mqtt/src/decode.rs decode_packet311 props=C03,C11
+    ensures
+        (first_byte >> 4u8) == 2 ==> ((first_byte == 0x20 && packet_body@.len() == 2 && packet_body@[0] <= 1 && connack311_reason(packet_body@[1]) is Some) ==>
+                (r matches Ok(b) && (*b matches MqttPacket::Connack(p) && p.session_present == (packet_body@[0] == 1) && Some(p.reason_code) == connack311_reason(packet_body@[1]))))
+            && (!(first_byte == 0x20 && packet_body@.len() == 2 && packet_body@[0] <= 1 && connack311_reason(packet_body@[1]) is Some) ==> r is Err),
+        (first_byte >> 4u8) == 3 ==> (match publish_spec(first_byte, packet_body@, false) { Some(v) => r matches Ok(b) && (*b matches MqttPacket::Publish(p) && publish_matches(p, v)), None => r is Err }),
+        (first_byte >> 4u8) == 4 ==> ((first_byte == 0x40u8 && packet_body@.len() == 2) ==> (r matches Ok(b) && (*b matches MqttPacket::Puback(p) && p.packet_id as int == be16(packet_body@) && puback_reason_value(p.reason_code) == 0)))
+            && (!(first_byte == 0x40u8 && packet_body@.len() == 2) ==> r is Err),
+        (first_byte >> 4u8) == 5 ==> ((first_byte == 0x50u8 && packet_body@.len() == 2) ==> (r matches Ok(b) && (*b matches MqttPacket::Pubrec(p) && p.packet_id as int == be16(packet_body@) && pubrec_reason_value(p.reason_code) == 0)))
+            && (!(first_byte == 0x50u8 && packet_body@.len() == 2) ==> r is Err),
+        (first_byte >> 4u8) == 6 ==> ((first_byte == 0x62u8 && packet_body@.len() == 2) ==> (r matches Ok(b) && (*b matches MqttPacket::Pubrel(p) && p.packet_id as int == be16(packet_body@) && pubrel_reason_value(p.reason_code) == 0)))
+            && (!(first_byte == 0x62u8 && packet_body@.len() == 2) ==> r is Err),
+        (first_byte >> 4u8) == 7 ==> ((first_byte == 0x70u8 && packet_body@.len() == 2) ==> (r matches Ok(b) && (*b matches MqttPacket::Pubcomp(p) && p.packet_id as int == be16(packet_body@) && pubcomp_reason_value(p.reason_code) == 0)))
+            && (!(first_byte == 0x70u8 && packet_body@.len() == 2) ==> r is Err),
+        (first_byte >> 4u8) == 9 ==> (match suback_spec(first_byte, packet_body@, false) { Some(v) => r matches Ok(b) && (*b matches MqttPacket::Suback(p) && suback_matches(p, v)), None => r is Err }),
+        (first_byte >> 4u8) == 11 ==> (match unsuback_spec(first_byte, packet_body@, false) { Some(v) => r matches Ok(b) && (*b matches MqttPacket::Unsuback(p) && unsuback_matches(p, v)), None => r is Err }),
+        (first_byte >> 4u8) == 13 ==> ((first_byte == 0xD0u8 && packet_body@.len() == 0) ==> (r matches Ok(b) && *b is Pingresp)) && (!(first_byte == 0xD0u8 && packet_body@.len() == 0) ==> r is Err),
+        (first_byte >> 4u8) == 14 ==> ((first_byte == 0xE0 && packet_body@.len() == 0) ==> (r matches Ok(b) && *b is Disconnect)) && (!(first_byte == 0xE0 && packet_body@.len() == 0) ==> r is Err),
+        // MQTT 3.1.1 has no AUTH packet; type 0 is reserved
+        ((first_byte >> 4u8) == 15 || (first_byte >> 4u8) == 0) ==> r is Err,
+//@@at bodystart
+    proof { assert((first_byte >> 4u8) <= 15u8) by (bit_vector); }
+//@end
+
+//@fn gneiss-mqtt/src/decode.rs decode_packet props=C03,C11
+    ensures
+        // (the per-type clauses of the two functions above, selected by the protocol version; spelt out for the most frequent packet)
+        (first_byte >> 4u8) == 3 ==> (match publish_spec(first_byte, packet_body@, protocol_version == ProtocolVersion::Mqtt5) { Some(v) => r matches Ok(b) && (*b matches MqttPacket::Publish(p) && publish_matches(p, v)), None => r is Err }),
+        (first_byte >> 4u8) == 0 ==> r is Err,
+//@end
+
 pub proof fn lemma_pow128(n: nat)
     ensures n == 0 ==> pow128(n) == 1, n == 1 ==> pow128(n) == 128, n == 2 ==> pow128(n) == 16384, n == 3 ==> pow128(n) == 2097152, n == 4 ==> pow128(n) == 268435456,
 {
